@@ -35,6 +35,9 @@ pub enum Act {
   Error,
   Complete,
   Poll,
+  /// fault: the consumer goes away - the future / stream is dropped (for a
+  /// conversion that is the only way to cancel); the source carries on
+  DropConsumer,
 }
 
 #[derive(Clone, Debug, Serialize, Deserialize)]
@@ -67,6 +70,7 @@ fn fmt_fut(r: &Result<Result<Val, E>, ObservableError>) -> String {
 }
 
 enum Tgt {
+  Dropped,
   Fut(Pin<Box<dyn Future<Output = Result<Result<Val, E>, ObservableError>>>>),
   Stream(Pin<Box<dyn Stream<Item = Result<Val, E>>>>),
   Status(Arc<CompleteStatus>, Arc<ProbeLog>),
@@ -116,6 +120,10 @@ impl Scenario for C14Des {
     }
     while rng.chance(1, 2) {
       acts.push(Act::Poll);
+    }
+    if target != Target::Status && rng.chance(1, 6) {
+      let at = rng.below(acts.len() + 1);
+      acts.insert(at, Act::DropConsumer);
     }
     let status_take = if target == Target::Status && rng.chance(1, 3) { rng.range(1, 2) } else { 0 };
     let status_pre = if target == Target::Status && rng.chance(1, 2) { rng.range(1, 6) as u8 } else { 0 };
@@ -179,6 +187,7 @@ impl Scenario for C14Des {
     let mut queue: std::collections::VecDeque<Ev> = Default::default(); // for streams
     let mut pending_registered = false;
     let mut done = false; // future resolved / stream ended
+    let mut dropped = false; // the consumer was dropped (fault)
     let mut violation: Option<Violation> = None;
     let mut trace = String::new();
     let mut post_terminal = 0u64;
@@ -204,12 +213,26 @@ impl Scenario for C14Des {
             items.push(val.clone());
             queue.push_back(Ev::Next(val.clone()));
           }
-          if case.threads_flavour {
-            shared_s.next(val)
-          } else {
-            local.next(val)
-          }
           trace.push_str(&format!("n{} ", next_v));
+          let r = std::panic::catch_unwind(std::panic::AssertUnwindSafe(|| {
+            if case.threads_flavour {
+              shared_s.next(val)
+            } else {
+              local.next(val)
+            }
+          }));
+          if let Err(p) = r {
+            v("c14.panic", format!("`{}`: the source's next() panicked{}: {}", trace.trim(), if dropped { " after the consumer had been dropped" } else { "" }, panic_message(&*p)), &mut violation);
+            break;
+          }
+        }
+        Act::DropConsumer => {
+          if !dropped && !matches!(tgt, Tgt::Status(..)) {
+            tgt = Tgt::Dropped;
+            dropped = true;
+            done = true;
+            trace.push_str("drop-consumer ");
+          }
         }
         Act::Error | Act::Complete => {
           let ev = if *a == Act::Error { Ev::Err(3) } else { Ev::Complete };
@@ -219,13 +242,17 @@ impl Scenario for C14Des {
             terminal = Some(ev.clone());
             queue.push_back(ev.clone());
           }
-          match (&ev, case.threads_flavour) {
+          trace.push_str(if *a == Act::Error { "err " } else { "complete " });
+          let r = std::panic::catch_unwind(std::panic::AssertUnwindSafe(|| match (&ev, case.threads_flavour) {
             (Ev::Err(e), false) => local.clone().error(*e),
             (Ev::Err(e), true) => shared_s.clone().error(*e),
             (_, false) => local.clone().complete(),
             (_, true) => shared_s.clone().complete(),
+          }));
+          if let Err(p) = r {
+            v("c14.panic", format!("`{}`: the source's terminal panicked{}: {}", trace.trim(), if dropped { " after the consumer had been dropped" } else { "" }, panic_message(&*p)), &mut violation);
+            break;
           }
-          trace.push_str(if *a == Act::Error { "err " } else { "complete " });
           // a waiter that is parked must be woken by the terminal
           if pending_registered && !done && !matches!(tgt, Tgt::Status(..)) && !flag.0.load(SeqCst) && post_terminal == 0 {
             v("c14.no-wake-on-terminal", format!("`{}`: the future/stream was pending with a registered waker; the source terminated but the waker was not woken", trace.trim()), &mut violation);
@@ -319,7 +346,7 @@ impl Scenario for C14Des {
                 }
               }
             }
-            Tgt::Status(..) => {}
+            Tgt::Status(..) | Tgt::Dropped => {}
           }
         }
       }
@@ -359,6 +386,7 @@ impl Scenario for C14Des {
         ("poll_before_terminal(pending)", polls_pending),
         ("source_error", matches!(terminal, Some(Ev::Err(_))) as u64),
         ("source_never_terminates", terminal.is_none() as u64),
+        ("consumer_dropped_while_the_source_carries_on", dropped as u64),
       ],
       reach: vec![],
       resolved: None,
